@@ -97,7 +97,8 @@ STRESS = lambda q, t: stream("codec.stress", {"quick": q, "thorough": t, "search
     "Go only: recursive target types, nesting depth 10^3..2*10^4 (thorough 10^5) through object, array and oneof recursion, closed and "
     "unclosed, deep garbage inside an Any value, Any values nested 90..1600 (thorough 4600) deep in proto-expanding mode, arrays / strings / "
     "maps up to 1 MiB (thorough 4 MiB), every 10th op a decimal / float exponent of 3*10^6..2^31-1 in every spelling, every 10th a query "
-    "key with an index segment of 2*10^9..2^63-1 after an array / map of containers; corpus "
+    "key with an index segment of 2*10^9..2^63-1 after an array / map of containers; last corpus line: `deep` op (document nested 8*10^5 "
+    "deep, run in a child process with Go's default 1 GB stack limit: open known finding c06-crash:stack-exhaustion-deep-nesting); corpus "
     "codec.stress.ops: 21 fixed exponent inputs (10^7 digits, 2^31-1 last); per-call bound 1.5 s + 5 us/byte, decoded message size "
     "<= 1024 * input + 8 KiB, "
     "debug.SetMaxStack(256 MiB), 60 s watchdog, live-heap watchdog (8 GiB during one call; 3 GiB in codec.fuzz / codec.history).",
